@@ -30,6 +30,7 @@ import (
 	"com.tuntun.rangers/node/src/consensus/model"
 	"com.tuntun.rangers/node/src/consensus/vrf"
 	"com.tuntun.rangers/node/src/middleware/types"
+	"golang.org/x/crypto/sha3"
 	"verif/harness/hx"
 	"verif/harness/hxnode"
 )
@@ -68,6 +69,31 @@ func exec(line string) string {
 	case "sha512":
 		d := sha512.Sum512(hb(1))
 		return hx.Hex(d[:])
+	case "sha3":
+		d := sha3.Sum256(hb(1))
+		return hx.Hex(d[:])
+	case "cdelta":
+		ns, _ := strconv.ParseInt(w[1], 10, 64)
+		before := time.Unix(1700000000, 0)
+		return strconv.Itoa(logical.CalDeltaByTime(before.Add(time.Duration(ns)), before))
+	case "vmsg":
+		d, _ := strconv.Atoi(w[2])
+		return hx.Hex(logical.VerifC16GenVrfMsg(hb(1), d))
+	case "vbt": // verifyBlockVRF with the message built by the node itself from pre.Random and the two block times
+		thr, _ := u(w[1])
+		setThreshold(thr)
+		ns, _ := strconv.ParseInt(w[5], 10, 64)
+		h, _ := u(w[6])
+		wm, _ := u(w[7])
+		t, _ := u(w[8])
+		tq, _ := u(w[9])
+		ptq, _ := u(w[10])
+		before := time.Unix(1700000000, 0)
+		pre := &types.BlockHeader{Random: hb(4), CurTime: before, TotalQN: ptq, Height: h - 1}
+		bh := &types.BlockHeader{ProveValue: new(big.Int).SetBytes(hb(3)), CurTime: before.Add(time.Duration(ns)), TotalQN: tq, Height: h}
+		castor := &model.MinerInfo{VrfPK: vrf.VRFPublicKey(hb(2)), WorkingMiners: wm}
+		ok, err := logical.VerifC16VerifyBlockVRF(bh, pre, castor, t)
+		return vbvResult(ok, err)
 	case "pad":
 		return hx.Hex(ed25519.VerifC16TryZeroPadding(hb(1))) + " " + hx.Hex(logical.VerifC16TryZeroPadding(hb(1)))
 	case "transport":
@@ -156,21 +182,25 @@ func exec(line string) string {
 		bh := &types.BlockHeader{ProveValue: new(big.Int).SetBytes(hb(3)), CurTime: now, TotalQN: tq, Height: h}
 		castor := &model.MinerInfo{VrfPK: vrf.VRFPublicKey(hb(2)), WorkingMiners: wm}
 		ok, err := logical.VerifC16VerifyBlockVRF(bh, pre, castor, t)
-		switch {
-		case ok:
-			return "ok"
-		case err == nil:
-			return "false"
-		case err == ed25519.ErrDecodeError:
-			return "err-decode"
-		case err.Error() == "proof not satisfy":
-			return "not-satisfy"
-		case strings.HasPrefix(err.Error(), "qn error"):
-			return "qn-error"
-		}
-		return "err-other " + strings.ReplaceAll(err.Error(), " ", "_")
+		return vbvResult(ok, err)
 	}
 	return "bad-op"
+}
+
+func vbvResult(ok bool, err error) string {
+	switch {
+	case ok:
+		return "ok"
+	case err == nil:
+		return "false"
+	case err == ed25519.ErrDecodeError:
+		return "err-decode"
+	case err.Error() == "proof not satisfy":
+		return "not-satisfy"
+	case strings.HasPrefix(err.Error(), "qn error"):
+		return "qn-error"
+	}
+	return "err-other " + strings.ReplaceAll(err.Error(), " ", "_")
 }
 
 // setThreshold makes Proposal025Block + GetRewardBlocks() equal thr (thr >= reward blocks).
@@ -678,6 +708,41 @@ func (g *gen) qn(n int) {
 	}
 }
 
+// message construction: CalDeltaByTime, genVrfMsg (SHA3-256 chain), and headers checked with the
+// message the node builds itself from pre.Random and the block times.
+func (g *gen) messages(n int) {
+	r := g.r
+	for _, l := range []int{0, 1, 31, 32, 64, 135, 136, 137, 271, 272, 300} {
+		g.do("sha3 " + hx.Hex(r.Bytes(l)))
+	}
+	sec := int64(1000000000)
+	for _, ns := range []int64{0, 1, sec - 1, sec, 2*sec - 1, 2 * sec, 2*sec + 1, 4*sec - 1, 4 * sec, 7 * sec, -1, -sec, -2 * sec, -2*sec - 1, -5 * sec,
+		(1<<23-1)*sec + sec - 1, (1 << 23) * sec, 3600 * sec, 86400 * sec} {
+		g.do(fmt.Sprintf("cdelta %d", ns))
+	}
+	for i := 0; i < n; i++ {
+		g.do(fmt.Sprintf("cdelta %d", int64(r.U64()>>uint(20+r.Intn(44)))-int64(r.Intn(3))*sec))
+		g.do(fmt.Sprintf("vmsg %s %d", hx.Hex(r.Bytes(r.Pick(0, 32, 64, 64, 5))), r.Intn(8)-2))
+	}
+	for i := 0; i < n; i++ {
+		pk, sk := g.key()
+		rnd := r.Bytes(64)
+		ns := int64(r.Intn(9))*sec + int64(r.Intn(int(sec)))
+		delta := logical.CalDeltaByTime(time.Unix(1700000000, 0).Add(time.Duration(ns)), time.Unix(1700000000, 0))
+		if r.Chance(1, 5) {
+			delta += r.Pick(-1, 1) // proof for the wrong slot
+		}
+		pi, err := ed25519.ECVRFProve(sk, logical.VerifC16GenVrfMsg(rnd, delta))
+		if err != nil {
+			continue
+		}
+		t := uint64(r.Pick(1, 3, 5, 10))
+		var qn uint64
+		hx.Guard(func() string { _, qn = logical.VerifC16ValidateProve(pi, 10, 0, t); return "" })
+		g.do(fmt.Sprintf("vbt %d %s %s %s %d 10 0 %d %d %d", g.thr[0], hx.Hex(pk), hx.Hex(new(big.Int).SetBytes(pi).Bytes()), hx.Hex(rnd), ns, t, 70+qn, 70))
+	}
+}
+
 func (g *gen) headers(n int) {
 	r := g.r
 	for i := 0; i < n; i++ {
@@ -755,5 +820,6 @@ func main() {
 	g.qn(300 * scale)
 	g.vrf(60*scale, 20*scale)
 	g.headers(40 * scale)
+	g.messages(30 * scale)
 	fmt.Println("STATS " + out.StatsJSON())
 }
